@@ -94,14 +94,14 @@ theorem switch_pm (cx : Cx) (fuel : Nat) (env : Src.Env) (he : EnvOK cx env) (hd
   have hfalls : falls ([LItem.op ⟨o0, hdr.name, hdr.params⟩] ++ Hn ++ [LItem.label (s.lbc + 1) false] ++ D ++ Cn ++ [LItem.label eL false]) = true :=
     falls_snoc_label _ _ _
   simp only [nameOK, Bool.and_eq_true, Bool.not_eq_true'] at hn
-  refine ⟨hstk.1, hstk.2, lastNotCtx_snoc_label _ _ _, ?_, ?_, ?_, hgrow, ?_⟩
+  refine ⟨hstk.1, hstk.2, hstk.3, lastNotCtx_snoc_label _ _ _, ?_, ?_, ?_, hgrow, ?_⟩
   · refine (((((?_ : NoNone [LItem.op ⟨o0, hdr.name, hdr.params⟩]).append nnH).append (noNone_label _ _)).append nnD').append nnC).append (noNone_label _ _)
     intro x hx root e; simp at hx; subst hx; cases e
   · intro h0; simp at h0
   · intro l hl'
     simp only [List.append_assoc, List.cons_append, List.nil_append, loneJump_cons_op] at hl'
     cases hl'
-  intro r i0 hp hpre k b hag m j hex hcont
+  intro r i0 hp hpre k b hag m j hex hin hcont
   have hend := hcont hfalls
   rw [htr] at hag ⊢
   have gT := hS.grow k (tbl b).length (b.push (.halt (evInvalid "switch default"))).1
@@ -142,11 +142,11 @@ theorem switch_pm (cx : Cx) (fuel : Nat) (env : Src.Env) (he : EnvOK cx env) (hd
     rw [LPos.next_eq r _ (i0 + (Hn.length + D.length + Cn.length + 3)) (by omega)]; exact hend
   have hbrk : R2 cx m j (target cx.rs eL) k := by rw [htgtE]; exact hendC
   have hexC : ExitsOK cx m j (s5.pushCase eL) (brkEnv env k) := by
-    refine ⟨fun cl bl rest hs => hex.loop cl bl rest (by rw [← hL5]; exact hs), fun e rest hs => ?_⟩
+    refine ⟨fun cl bl rest hs => hex.loop cl bl rest (by rw [← hL5]; exact hs), fun e rest hs => ?_, hex.labs⟩
     simp only [St.pushCase, List.cons.injEq] at hs
     obtain ⟨rfl, _⟩ := hs
     exact ⟨k, rfl, hbrk⟩
-  obtain ⟨tP, _, dP⟩ := cT _ hpH hpC agT m j (s5.pushCase eL) rfl rfl hexC hendC
+  obtain ⟨tP, _, dP, xP⟩ := cT _ hpH hpC agT m j (s5.pushCase eL) rfl rfl hexC hin hendC
   -- behind the header jumps: the default ops
   have hnt : R2 cx m j ⟨r, i0 + 1 + Hn.length⟩ (tbl b).length := by
     refine R2.silL (lab_label hitD) ?_
@@ -177,6 +177,9 @@ theorem switch_pm (cx : Cx) (fuel : Nat) (env : Src.Env) (he : EnvOK cx env) (hd
   simp only [hne, Bool.false_and, Bool.false_eq_true, if_false] at hstep
   have hev : (⟨hdr.name, convParams hdr.params⟩ : Ev) = hdrEv hdr := rfl
   rw [hev, LPos.next_eq r i0 (i0 + 1) rfl] at hstep
-  exact R2.emit hstep (nodeStep_of hNe) hfirst.1
+  refine ⟨R2.emit hstep (nodeStep_of hNe) hfirst.1, ?_⟩
+  have hpush := Pushes.push b (.halt (evInvalid "switch default"))
+  refine LabExport.mono xP hpush.len (fun i hi => hpush.same hi) (fun i hi => ?_)
+  rw [(Pushes.push _ _).same (by rw [hlen3]; have := gT.len; have := hpush.len; omega), tbl_set, List.getElem?_set_ne (by omega)]
 
 end ESV.Comp
